@@ -9,6 +9,7 @@
 package c16
 
 import (
+	"crypto/sha256"
 	"encoding/base64"
 	"encoding/hex"
 	"encoding/json"
@@ -36,6 +37,7 @@ import (
 	"github.com/ethereum/go-ethereum/common/hexutil"
 
 	coinomicstypes "github.com/haqq-network/haqq/x/coinomics/types"
+	erc20types "github.com/haqq-network/haqq/x/erc20/types"
 	evmtypes "github.com/haqq-network/haqq/x/evm/types"
 
 	"verif/harness/engine"
@@ -778,6 +780,33 @@ func (d *driver) queries(w *world.World, path []string, res *engine.Result) {
 				viol("bank.supplyOf", "supplyOf differs from the bank module", map[string]any{"got": fmt.Sprint(o2), "want": sup.String(), "err": fmt.Sprint(err)})
 			}
 		}
+	}
+	// many denominations: every IBC voucher has an ERC20 address without any registration, so a chain
+	// easily has more of them than one query page holds (root state only; on a branch)
+	if len(path) == 0 {
+		restore := w.Branch()
+		var minted sdk.Coins
+		for i := 0; i < 130; i++ {
+			h := sha256.Sum256([]byte(fmt.Sprintf("verif-voucher-%d", i)))
+			minted = minted.Add(sdk.NewInt64Coin("ibc/"+strings.ToUpper(hex.EncodeToString(h[:])), int64(1000+i)))
+		}
+		if err := w.App.BankKeeper.MintCoins(w.Ctx(), erc20types.ModuleName, minted); err != nil {
+			panic(err)
+		}
+		want := 0
+		w.App.BankKeeper.IterateTotalSupply(w.Ctx(), func(c sdk.Coin) bool {
+			if _, err := w.App.Erc20Keeper.GetCoinAddress(w.Ctx(), c.Denom); err == nil {
+				want++
+			}
+			return false
+		})
+		res.Evaluations++
+		if out, err := d.query(bk, precomp.BankAddr, "totalSupply"); err != nil {
+			viol("bank.totalSupply", "totalSupply query failed with many denominations", map[string]any{"err": err.Error()})
+		} else if got := reflect.ValueOf(out[0]).Len(); got != want {
+			viol("bank.totalSupply", "totalSupply does not list every denomination that has an ERC20 address", map[string]any{"listed": got, "want": want})
+		}
+		restore()
 	}
 }
 
